@@ -282,3 +282,52 @@ def eval_case(case):
                 out.append(({"cls": name, "obs": "is_inside", "tags": tags + ["raised"],
                              "msg": f"raised {type(exn).__name__}: {str(exn)[:200]}"}, {"case": case, "obs": "is_inside"}))
     return out, {"maxrel": maxrel, "unclear": sum(1 for m in rec.get("mem", []) if m == 2) if "inside" in which else 0}
+
+
+def eval_copy(case):
+    """C02: the general Polyhedron built from the vertices and the outward counter-clockwise facet cycles of a convex lattice
+    polytope (a 'Polyhedron copy of a convex solid': faces with 3..n corners, trapezoids, kites, ...) has the exact measures."""
+    import numpy as np
+    import coxeter
+    rec = case["rec"]
+    pl = Placement.from_json(case["pl"])
+    tags = convex_tags(rec, pl) + ["polyhedron_copy"]
+    out = []
+    maxrel = {}
+
+    def bad(obs, msg, exp=None, got=None):
+        out.append(({"cls": "Polyhedron", "obs": obs, "tags": tags, "msg": msg},
+                    {"case": case, "obs": obs, "expected": fl(exp) if exp is not None else None, "observed": got}))
+
+    verts = np.array(fl(pl.points(rec["v"])), dtype=float)
+    ex = expected(rec, pl)
+    k = case.get("shift", 0)
+    faces = [list(f["cyc"][(k + i) % len(f["cyc"]):]) + list(f["cyc"][:(k + i) % len(f["cyc"])]) for i, f in enumerate(rec["facets"])]
+    try:
+        P = coxeter.shapes.Polyhedron(verts.copy(), [np.array(f) for f in faces], faces_are_convex=True)
+    except Exception as e:
+        bad("construct", f"valid closed mesh rejected: {type(e).__name__}: {e}")
+        return out, {"maxrel": maxrel}
+    diam = float(np.max(np.linalg.norm(verts[:, None, :] - verts[None, :, :], axis=-1)))
+    mlen = diam + float(np.max(np.linalg.norm(verts, axis=-1)))
+    want_fa = [f["area"] for f in ex["facets"]]
+    checks = [
+        ("volume", "volume", ex["volume"], lambda: P.volume, float(ex["volume"])),
+        ("surface_area", "area", ex["area"], lambda: P.surface_area, ex["area"]),
+        ("get_face_area", "area", want_fa, lambda: P.get_face_area(), max(want_fa)),
+        ("centroid", "point", ex["centroid"], lambda: P.centroid, mlen),
+        ("inertia_tensor", "inertia", ex["inertia"], lambda: P.inertia_tensor, math.sqrt(sum(float(x) ** 2 for r in ex["inertia"] for x in r))),
+    ]
+    for obs, kind, e, getter, mag in checks:
+        try:
+            o = np.asarray(getter(), dtype=float).ravel()
+        except Exception as exn:
+            bad(obs, f"raised {type(exn).__name__}: {exn}", e)
+            continue
+        ee = np.asarray(fl(e), dtype=float).ravel()
+        w = float(np.max(np.abs(ee - o))) / (abs(float(mag)) or 1.0) if ee.shape == o.shape and np.all(np.isfinite(o)) else float("inf")
+        if w > TAU[kind]:
+            bad(obs, "value differs from the exact integral", e, o.tolist())
+        else:
+            maxrel[kind] = max(maxrel.get(kind, 0.0), w)
+    return out, {"maxrel": maxrel}
